@@ -14,7 +14,7 @@ RULE = ("corpus strings (language pinned when the test row names one, autodetect
         "newline + trailing tab/newline; trailing ':' (only if the string does not end in one); and, for strings with ASCII "
         "digits, every digit replaced by the same digit of another Unicode Nd block (plus one combined whitespace+digit rewriting per string; 15% of the strings under NORMALIZE=False) (quick: Arabic-Indic, Persian, Devanagari, "
         "Bengali, Thai, Tibetan, Myanmar, full-width + 4 seeded random blocks; thorough: all blocks). Oracle: (date, period, "
-        "locale) equal to the un-rewritten run in the same process (5% also in the opposite order). non-trivial distinct = "
+        "locale) [also for 21 (string, date_formats) pairs incl. literal punctuation tails, with the formats passed to both runs] equal to the un-rewritten run in the same process (5% also in the opposite order). non-trivial distinct = "
         "distinct (string, language, rewriting) whose un-rewritten run produced a date.")
 ASSUMPTIONS = ["digit substitution is applied to every ASCII digit of the string (one script per string)",
                "C03 guarantees the two runs do not influence each other; 5% of pairs are also run in the opposite order"]
@@ -35,6 +35,20 @@ WS = {
 FIXED_BLOCKS = [0x660, 0x6F0, 0x966, 0x9E6, 0xE50, 0xF20, 0x1040, 0xFF10]
 
 
+FORMAT_CASES = [
+    ("en", "12/05/2015 10:30 (UTC)", "%d/%m/%Y %H:%M (UTC)"), ("en", "12 May 2015", "%d %B %Y"), ("en", "May 12, 2015 [final]", "%B %d, %Y [final]"),
+    ("en", "2015-05-12 10:30:45", "%Y-%m-%d %H:%M:%S"), ("en", "Tuesday, 12 May 2015", "%A, %d %B %Y"), ("en", "12.05.15", "%d.%m.%y"),
+    ("en", "10:30 PM on 12 May 2015", "%I:%M %p on %d %B %Y"), ("en", "05/2015", "%m/%Y"), ("en", "\"12 May 2015\"", "\"%d %B %Y\""),
+    ("fr", "12 mai 2015", "%d %B %Y"), ("fr", "mardi 12 mai 2015 (soir)", "%A %d %B %Y (soir)"), ("de", "12. Mai 2015", "%d. %B %Y"),
+    ("es", "12 de mayo de 2015", "%d de %B de %Y"), ("ru", "12 мая 2015 г.", "%d %B %Y г."), ("it", "12 maggio 2015 >", "%d %B %Y >"),
+    ("en", "2015 132", "%Y %j"), ("en", "12 May", "%d %B"), ("en", "20150512T103045", "%Y%m%dT%H%M%S"), ("en", "12-May-2015", "%d-%b-%Y"),
+    ("pt", "12 de maio de 2015 às 10:30", "%d de %B de %Y às %H:%M"), ("nl", "12 mei 2015 (UTC)", "%d %B %Y (UTC)"),
+    ("en", "12/05/2015 10:30 \"GMT\"", "%d/%m/%Y %H:%M \"GMT\""), ("en", "on 12 May 2015 at 10:30", "on %d %B %Y at %H:%M"),
+    ("en", "12 May 2015 10:30 pm)", "%d %B %Y %I:%M %p)"), ("fr", "le 12 mai 2015 à 10:30", "le %d %B %Y à %H:%M"),
+    ("de", "Dienstag, 12. Mai 2015 >", "%A, %d. %B %Y >"), ("en", "Tuesday 12 May 2015 (UTC)", "%A %d %B %Y (UTC)"),
+]
+
+
 def digit_blocks():
     return [c for c in range(0x110000) if unicodedata.category(chr(c)) == "Nd" and unicodedata.digit(chr(c)) == 0 and c != 0x30]
 
@@ -44,7 +58,8 @@ def todig(s, z):
 
 
 def shards(tier, seed):
-    out = [{"part": "corpus", "i": i, "k": 10} for i in range(10)]
+    out = [{"part": "formats", "i": 0}]
+    out += [{"part": "corpus", "i": i, "k": 10} for i in range(10)]
     out += [{"part": "generated", "i": i, "k": 5} for i in range(5)]
     return out
 
@@ -63,9 +78,13 @@ def parser(lang, norm=True):
     return _P[lang, norm]
 
 
-def outcome(p, s):
+def outcome(p, s, formats=None):
     try:
-        r = p.get_date_data(s)
+        r = p.get_date_data(s, formats)
+        if formats:
+            # a string that matches one of the caller's formats as written is answered before any language work and carries
+            # no locale; what it "parses to" is the date and the period
+            return (r["date_obj"], r["period"], None)
         return (r["date_obj"], r["period"], r["locale"])
     except Exception as e:
         return ("EXC", type(e).__name__, None)
@@ -123,12 +142,12 @@ def classify(s, s2, kind):
     return "differs-after-sanitising", []
 
 
-def check_string(ctx, rnd, s, lang, blocks, origin):
+def check_string(ctx, rnd, s, lang, blocks, origin, formats=None):
     norm = rnd.random() >= 0.15      # 15% of the strings under NORMALIZE=False (the cleaning steps run before normalisation)
     p = parser(lang, norm)
     if not norm:
         ctx.count("strings_under_NORMALIZE_False")
-    base = outcome(p, s)
+    base = outcome(p, s, formats)
     ctx.ran()
     if base[0] == "EXC":
         ctx.count("base raised (C02's subject)")
@@ -146,22 +165,25 @@ def check_string(ctx, rnd, s, lang, blocks, origin):
         if s2 == s:
             continue
         if rnd.random() < 0.05:
-            got = outcome(p, s2)
-            base2 = outcome(p, s)
+            got = outcome(p, s2, formats)
+            base2 = outcome(p, s, formats)
             if base2 != base:
                 ctx.violation({"string": s, "language": lang}, base2, base, "same-string-two-results", {"kind": kind})
         else:
-            got = outcome(p, s2)
+            got = outcome(p, s2, formats)
         ctx.ran()
         if got != base:
             label, steps = classify(s, s2, kind)
-            ctx.violation({"string": s, "language": lang, "rewriting": name, "rewritten": s2, "origin": origin, "normalize": norm},
+            ctx.violation({"string": s, "language": lang, "rewriting": name, "rewritten": s2, "origin": origin, "normalize": norm,
+                           "formats": formats},
                           got, base, "%s-variance:%s" % ("whitespace" if kind == "ws" else "digit-script", label),
                           {"kind": kind, "rewriting": name if kind == "ws" else "digits", "steps": "+".join(steps),
                            "base_parsed": base[0] is not None})
             continue
         if base[0] is not None:
-            ctx.nontrivial(s, lang, name)
+            ctx.nontrivial(s, lang, name, repr(formats))
+            if formats:
+                ctx.count("invariant_with_date_formats")
             ctx.count("invariant:%s" % (name if kind == "ws" else "digits"))
         else:
             ctx.count("invariant_unparsed")
@@ -194,7 +216,20 @@ def run_shard(ctx, desc):
     rnd = rng(ctx.seed, "C18" + desc["part"], desc["i"])
     allb = digit_blocks()
     try:
-        if desc["part"] == "corpus":
+        if desc["part"] == "formats":
+            # the same invariance when the caller supplies date_formats: the un-rewritten string matches its format as
+            # written, the rewritten one only after cleaning (and, for names, translation that keeps the formatting)
+            for lang, s, fmt in FORMAT_CASES:
+                # domain: date strings (the statement's subject), i.e. strings the selected language parses on its own; a
+                # string that only parses because it equals the caller's format literally (foreign literal words, compact
+                # forms) is not one, and noise legitimately sends it through the language path where it is unknown
+                if outcome(parser(lang, True), s)[0] is None:
+                    ctx.count("format_case_skipped:not-a-date-string-without-formats")
+                    continue
+                blocks = allb if ctx.tier == "thorough" else FIXED_BLOCKS + rnd.sample(allb, 4)
+                check_string(ctx, rnd, s, lang, blocks, "formats", formats=[fmt])
+                ctx.count("format_cases")
+        elif desc["part"] == "corpus":
             rows = corpus()[desc["i"]::desc["k"]]
             if ctx.tier == "quick":
                 rows = rnd.sample(rows, min(len(rows), 90))
@@ -225,6 +260,8 @@ def finalize(merged, tier, seed):
     inv = sum(v for k, v in c.items() if k.startswith("invariant:"))
     if inv < 3000:
         inc.append("only %d rewritings of parseable strings compared" % inv)
+    if c.get("invariant_with_date_formats", 0) < 100:
+        inc.append("invariance under caller-supplied formats compared only %d times" % c.get("invariant_with_date_formats", 0))
     if c.get("invariant:digits", 0) < 500:
         inc.append("digit-script rewritings compared only %d times" % c.get("invariant:digits", 0))
     return {"inconclusive": inc, "anchors_hit": {k[7:]: v for k, v in c.items() if k.startswith("anchor:")}}
@@ -235,7 +272,7 @@ def replay_case(ctx, v):
 
     c = v["case"]
     p = parser(c["language"], c.get("normalize", True))
-    base, got = outcome(p, c["string"]), outcome(p, c["rewritten"])
+    base, got = outcome(p, c["string"], c.get("formats")), outcome(p, c["rewritten"], c.get("formats"))
     if got != base:
         kind = v["features"]["kind"]
         label, steps = classify(c["string"], c["rewritten"], kind)
